@@ -150,7 +150,10 @@ def _cls(name):
     return get
 
 
-TARGETS = {"db": _t_db, "units": _t_units, "posc": _t_posc, "mgr": _t_mgr, "py": lambda: PY}
+# a second UnitDatabase instance next to the singleton (set up by the profile; never the singleton)
+OTHER_DB = {"db": None}
+
+TARGETS = {"db2": lambda: OTHER_DB["db"], "db": _t_db, "units": _t_units, "posc": _t_posc, "mgr": _t_mgr, "py": lambda: PY}
 for _n in (
     "Scalar",
     "Array",
